@@ -260,5 +260,6 @@ pub fn subs() -> Vec<Box<dyn DynSub>> {
         sub(Sub { name: "c18.in", source: Source::Gen(in_strategy, 4_800_000, 40_000_000), oracle: in_oracle, known: no_known, hang_is_violation: true }),
         sub(Sub { name: "c18.compose_f64", source: Source::Gen(composef_strategy, 800_000, 5_000_000), oracle: composef_oracle, known: no_known, hang_is_violation: true }),
         sub(Sub { name: "c18.duration_x_f64", source: Source::Gen(mulf_strategy, 1_600_000, 10_000_000), oracle: mulf_oracle, known: no_known, hang_is_violation: true }),
+        crate::props::fuzzsub::fc18(),
     ]
 }
